@@ -106,6 +106,11 @@ def file_for(kind, flavour):
             ('a_npfloat', np.float32(1.25)), ('a_npint', np.int16(12)), ('a_i1arr', np.array([5], dtype='i1')),
             ('a_unicode', u'\u00b5g/m\u00b3 caf\u00e9'),
         ])
+        if flavour == 'NETCDF4':
+            # Python integers beyond 32 bits (millisecond time stamps, 2**31, a large negative number) and a
+            # numpy 64-bit integer: only this flavour can hold them
+            vals.update([('a_ms', 1695800000123), ('a_2p31', 2 ** 31), ('a_neg64', -(2 ** 40)),
+                         ('a_npi8', np.int64(2 ** 33 + 1))])
         for k, v in vals.items():
             f.attrs[k] = v
         va = OrderedDict(vals)
